@@ -8,6 +8,7 @@ import (
 	"encoding/json"
 	"fmt"
 	"hash/fnv"
+	"math"
 	"os"
 	"runtime/debug"
 	"sort"
@@ -129,6 +130,11 @@ func (r *R) Count(name string, n int64) { r.Counters[name] += n }
 
 // Max records an observed maximum (calibration drift is visible in the evidence).
 func (r *R) Max(name string, v float64) {
+	// JSON has no NaN or Inf: a non-finite observation is recorded as the largest float and tallied
+	if math.IsNaN(v) || math.IsInf(v, 0) {
+		r.Count("non_finite_observation:"+name, 1)
+		v = math.MaxFloat64
+	}
 	if old, ok := r.Maxima[name]; !ok || v > old {
 		r.Maxima[name] = v
 	}
@@ -162,6 +168,7 @@ func (r *R) record(v Violation) {
 	if r.matcher != nil {
 		if fi := r.matcher(&v); fi >= 0 {
 			r.KnownHits[fi]++
+			r.Counters[fmt.Sprintf("known_finding_%d_class:%s", fi, v.Class)]++
 			return
 		}
 	}
